@@ -90,6 +90,14 @@ let run_case (toks : string list) : string option =
       then recv6 c Z0 (if from = "-" then None else Some (unhex from)) b
       else recv4 c Z0 b in
     Some (observe res expect)
+  | "recvseq" :: cfg :: from :: list :: _ ->
+    let c = parse_rcfg cfg in
+    let one h =
+      let b = unhex h in
+      observe (if List.length c.rc_dest = 16
+               then recv6 c Z0 (if from = "-" then None else Some (unhex from)) b
+               else recv4 c Z0 b) "-" in
+    Some (String.concat "|" (List.map one (split_on ',' list)))
   | ["sockerr"; cfg; what] ->
     let c = parse_rcfg cfg in
     let k = z_of_int 13 in
